@@ -83,9 +83,10 @@ T = {
         "/ contains / is_dir / get_bytes / get_metadata / keys; parent_key / key_name / join_key and the inverse lemma; Store.finalize_metadata "
         "records key, name, directory flag, size and md5 of exactly the bytes being stored (field-level contract on the same source); the "
         "mutators of the generic proxy (ProxyStore.store / store_metadata / remove / makedir) do to the wrapped store exactly what the interface "
-        "says, under the same key. The "
+        "says, under the same key; the directory store names the metadata file of an entry after the entry's FULL name inside the metadata folder "
+        "beside it (FileStore.metadata_path_for_key, stated with the assumed path algebra), so siblings never share one. The "
         "directory store, listdir / removedir of the memory store and every proxy composition are explored against the reference model "
-        "(all well-formed histories to depth 2-4 over 6 keys, incl. read-modify-write of an entry).",
+        "(all well-formed histories to depth 2-4 over 6 keys - two of them siblings sharing a stem - incl. read-modify-write of an entry).",
         "listdir (an image comprehension over split keys) stays undecided in both solvers and is bounded only. hashlib.md5 and Metadata.as_dict "
         "are assumed. " + BOUNDED),
 "C08": ("proof",
@@ -139,7 +140,9 @@ T = {
         "retrievable and touches no other key; store files data and ready metadata in one operation. With one cache operation as one step this "
         "gives `an entry another evaluation is still producing is never served as finished`. The schedule-level statement (every interleaving of "
         "two or three overlapping evaluations returns the stand-alone outcomes and leaves only correct entries) is NOT proved: the engine has no "
-        "concurrency; it is explored by deterministic interleavings (memory cache and file cache, ~900 schedules quick).",
+        "concurrency; it is explored by deterministic interleavings (memory cache and file cache, ~1400 schedules quick; scheduling points before every cache "
+        "operation and, for file-backed caches, before every open, write and rename; two writers of ONE key stopped at each (rename, write) pair with "
+        "a reader in between - the schedule that exposed the temporary file shared by the threads of a process, repaired).",
         "No thread-level proof; atomicity of one cache operation is the property's own granularity and is assumed. " + BOUNDED),
 "C13": ("proof",
         "contract-based deductive verification of the in-memory cache, the combinators and the store-backed key mapping against an abstract map "
@@ -193,8 +196,11 @@ T = {
         "returned / cached / stored metadata comparison as labelled bounded stand-in",
         "Proved: with_filename records the file name and derives extension and media type from it; in evaluate_action status agrees with the "
         "error flag (error iff is_error, otherwise ready), every failure is flagged, the final metadata goes to the given cache and equals the "
-        "returned one; evaluate files the result under the canonical query text and flags a failed prefix. That type identifier, message, "
-        "commands and the three kept copies (returned, cached, stored) agree in every field is explored.",
+        "returned one; evaluate files the result under the canonical query text and flags a failed prefix, records a failure that comes up from a nested evaluation "
+        "(status error, error flag) before it goes on, and leaves the metadata-writing switch of the asking evaluation as it found it; "
+        "MetadataContextMixin.error / exception set flag and status; the in-memory cache keeps and hands out private copies (ownership by data "
+        "flow), so a later step cannot rewrite a kept copy. That type identifier, message, "
+        "commands and the three kept copies (returned, cached, stored) agree in every field - also for the copies kept for the prefixes of a query - is explored.",
         "Two recorded findings (KNOWN-FINDING: StoreCache media type, file-name-only query) are genuine, unrepaired deviations. " + BOUNDED),
 "C19": ("proof",
         "contract-based deductive verification (own VC generator over the real AST, z3/cvc5); bounded run-time contract check as labelled stand-in",
